@@ -104,7 +104,7 @@ def pipeline_history(draw):
     pos = draw(st.integers(0, ncols))
     names.insert(pos, 'label')
     n = len(names)
-    steps = draw(st.lists(st.tuples(st.sampled_from(['d', 'p', 'p']), st.integers(1, n + 3)).map(list), min_size=1, max_size=30))
+    steps = draw(st.lists(st.tuples(st.sampled_from(['d', 'p', 'p', 'pn']), st.integers(1, n + 3)).map(list), min_size=1, max_size=30))
     return {'mode': 'pipeline', 'cols': names, 'steps': steps}
 
 
@@ -117,18 +117,31 @@ def check_history(cands, steps, cols=None):
     stubs.reset_globals()
     model = Counter()
     df = None
+    df_nan = None
     if cols is not None:
         df = pd.DataFrame({c: ['0', '1', '0'] for c in cols})
+        df_nan = pd.DataFrame({c: (['5', '5', '5', '5'] if i % 3 == 0 and c != 'label' else ['0', '1', '0', str(i % 2)])
+                               for i, c in enumerate(cols)})
     candset = set(cands)
     for si, (kind, cap) in enumerate(steps):
         before = {c: model[c] for c in cands}
         args = stubs.make_args(heuristic='Constant', combination_number_upper_bound=int(cap), target_ranking_only='True')
         if kind == 'd':
             got = cr.prior_combinations_sample(list(cands), args)
+        elif kind == 'pn':
+            # a scoring heuristic that yields NaN for some pairs (Pearson on a column that is constant in the batch): an
+            # evaluation with an undefined score is still an evaluation
+            nargs = stubs.make_args(heuristic='correlation-Pearson', combination_number_upper_bound=int(cap),
+                                    target_ranking_only='True')
+            import warnings
+            with warnings.catch_warnings():
+                warnings.simplefilter('ignore')
+                out = cr.mixed_rank_graph(df_nan, nargs, stubs.InlinePool(), stubs.PBar()).triplet_scores
+            got = list(dict.fromkeys((a, b) if (a, b) in candset else (b, a) for a, b, _ in out))
         else:
             out = cr.mixed_rank_graph(df, args, stubs.InlinePool(), stubs.PBar()).triplet_scores
             got = [(a, b) for a, b, _ in out]
-        where = f'batch {si + 1} (cap {cap}, {"direct" if kind == "d" else "pipeline"})'
+        where = f'batch {si + 1} (cap {cap}, {"direct" if kind == "d" else "pipeline" if kind == "p" else "pipeline, Pearson with NaN scores"})'
         if len(got) != min(cap, len(cands)):
             raise Violation(f'{where}: returned {len(got)} combinations, expected min(cap, len)={min(cap, len(cands))}', kind='C07/size')
         if len(set(got)) != len(got):
@@ -360,8 +373,10 @@ def oracle(case, rec):
     caps = [c for _, c in steps]
     rec.nt(len(steps) >= 3 and any(c < len(cands) for c in caps) and len(set(caps)) >= 2, key=case)
     rec.cls(case['mode'], 'has-cap>len' if any(c > len(cands) for c in caps) else 'caps<=len')
-    if any(k == 'p' for k, _ in steps):
+    if any(k in ('p', 'pn') for k, _ in steps):
         rec.cls('uses-mixed_rank_graph')
+    if any(k == 'pn' for k, _ in steps):
+        rec.cls('heuristic-with-nan-scores')
     check_history(cands, steps, cols)
 
 
